@@ -9,3 +9,20 @@ Theorem C01_query : C01_query_stmt.                    Proof. exact Proofs.C01.C
 Theorem C01_tick0 : C01_tick0_stmt.                    Proof. exact Proofs.C01.C01_tick0. Qed.
 Theorem C01_tempo_events : C01_tempo_events_stmt.      Proof. exact Proofs.C01.C01_tempo_events. Qed.
 Theorem C01_stored : C01_stored_stmt.                  Proof. exact Proofs.C01.C01_stored. Qed.
+
+(** Chart level: combine [C11_file] (every timed point of a parsed chart is [stored_ok]) with
+    [C01_stored]. *)
+From CP Require Import Base.Prelude Base.Cfg Model.Sync Model.Chart Spec.C11 Spec.ChartTimed Proofs.ChartTimed.
+From Coq Require Import Reals List.
+Theorem C01_chart :
+  forall c text want ch logs tm, from_file c text want = Ok (ch, logs) ->
+    let B := st_bpm (c_sync ch) in
+    matches_tm (evs B) tm ->
+    forall e, In e (chart_points ch) -> wf_query (resolution B) tm (t_tick e) ->
+      (Rabs (IZR (t_ts e) - exact_from (resolution B) tm (t_tick e)) <= slack (segments tm (t_tick e)))%R.
+Proof.
+  intros c text want ch logs tm H B Hm e He Hq.
+  destruct (Proofs.ChartTimed.C11_file c text want ch logs H) as (Hwf & Hpts & _).
+  apply (C01_stored B tm e Hwf Hm Hq).
+  rewrite Forall_forall in Hpts. apply Hpts. exact He.
+Qed.
